@@ -38,6 +38,22 @@ def kinds(b):
         K.append(Kind("bool.assert_%s(x,const)" % nm, 1,
                       (lambda n: lambda ns, ops, prm: getattr(ns.bo.LinCombBool(ops[0]), "assert_" + n)(prm))(nm),
                       (lambda r: lambda v, prm: v[0] in (0, 1) and r(v[0], prm))(rel), params=[0, 1]))
+    for nm, rel in cmpops:
+        K.append(Kind("bool.assert_%s(x,y)" % nm, 2,
+                      (lambda n: lambda ns, ops, prm: getattr(ns.bo.LinCombBool(ops[0]), "assert_" + n)(ns.bo.LinCombBool(ops[1])))(nm),
+                      (lambda r: lambda v, prm: v[0] in (0, 1) and v[1] in (0, 1) and r(v[0], v[1]))(rel)))
+        K.append(Kind("fxp.assert_%s(x,int const)" % nm, 1,
+                      (lambda n: lambda ns, ops, prm: getattr(ns.fx.LinCombFxp(ops[0], False), "assert_" + n)(prm))(nm),
+                      (lambda r: lambda v, prm: r(v[0], prm * (1 << env.bind().fx.resolution)))(rel), params=[-1, 0, 1]))
+        K.append(Kind("fxp.assert_%s(x,float const)" % nm, 1,
+                      (lambda n: lambda ns, ops, prm: getattr(ns.fx.LinCombFxp(ops[0], False), "assert_" + n)(prm))(nm),
+                      (lambda r: lambda v, prm: r(v[0], int(prm * (1 << env.bind().fx.resolution))))(rel), params=[0.5, -1.5]))
+        K.append(Kind("fxp.assert_%s(x,secret int)" % nm, 2,
+                      (lambda n: lambda ns, ops, prm: getattr(ns.fx.LinCombFxp(ops[0], False), "assert_" + n)(ops[1]))(nm),
+                      (lambda r: lambda v, prm: r(v[0], v[1] * (1 << env.bind().fx.resolution)))(rel)))
+    K.append(Kind("Array.assert_eq", 2,
+                  lambda ns, ops, prm: ns.ar.Array([ops[0], ops[1]]).assert_eq(ns.ar.Array([ns.rt.LinComb.ONE_SAFE * 1, ops[0]])),
+                  lambda v, prm: v[0] == 1 and v[1] == v[0]))
     K.append(Kind("assert_zero", 1, lambda ns, ops, prm: ops[0].assert_zero(), lambda v, prm: v[0] == 0))
     K.append(Kind("assert_nonzero", 1, lambda ns, ops, prm: ops[0].assert_nonzero(), lambda v, prm: v[0] != 0))
     K.append(Kind("assert_positive()", 1, lambda ns, ops, prm: ops[0].assert_positive(), lambda v, prm: 0 <= v[0] < lim))
